@@ -372,7 +372,7 @@ def make_job(rng, kind_counts, tier):
                 kind += "+unsat"
     job = {"op": "c13.run", "entry": entry, "digits": d,
            "conds": [G.show(c) for c in conds], "assumptions": [G.show(a) for a in assumptions]}
-    has_div = any(G.has_nonconst_div(c if entry == "expr" else ("-", c[1], c[2])) for c in conds)
+    has_div = any(G.has_nonconst_div(c if entry == "expr" else ("-", c[1], c[2])) for c in conds + assumptions)
     npts = 3 if tier == "quick" else 4
     # a disjunction has no solution set to stay on; everything else is judged at points that satisfy its linear equalities
     eqs_for_points = [] if entry == "or" else conds + assumptions
@@ -381,6 +381,10 @@ def make_job(rng, kind_counts, tier):
     # to zero (x = -50 x next to 1 / x) is outside the property (rational expressions are compared where they are
     # defined), and sympy meets 0/0 there
     if not defined_somewhere(rng, trees, fluents, eqs_for_points, points):
+        return None
+    if has_div and G.solve_point(rng, fluents, [c for c in eqs_for_points if c[0] == "="]) is None:
+        # equalities without a common solution next to a non-constant divisor: there is no solution set to be defined on (each
+        # equality alone may force the divisor to zero: s - 3 s = 0, s + 5 s = -2, 1 / s)
         return None
     if entry == "expr" and has_div:
         points = []
